@@ -30,6 +30,7 @@ var errInjected = errors.New("injected fault")
 
 // entry is one (event, answer) pair in the form the Coq side prints.
 type entry struct {
+	Tid  int           // C08: the thread that made the call
 	Kind string        // lock unlock db newtransport deref batch app writeheader setheader write now
 	Name string        // db op / app callback name / iri / header key
 	Args []interface{} // JSON values (already decoded Go values), or strings for iris
@@ -106,7 +107,7 @@ func (r *recorder) fail() bool {
 	return r.faults[i]
 }
 
-func (r *recorder) rec(e entry) { r.trace = append(r.trace, e) }
+func (r *recorder) rec(e entry) { e.Tid = r.tid; r.trace = append(r.trace, e) }
 
 func deepCopy(m jmap) jmap {
 	if m == nil {
